@@ -277,13 +277,13 @@ func TestVerif_C16_Decode(t *testing.T) {
 		var b []byte
 		switch cls {
 		case "near-m":
-			v := new(big.Int).Add(f.m, big.NewInt(int64(gen.Int(t, "off", -3, 3))))
+			v := new(big.Int).Add(f.m, big.NewInt(int64(gen.Uniform(t, "off", -3, 3))))
 			b = gen.Pad32(v)
 		case "uniform32":
 			b = gen.RandBytes(r, 32)
 		case "prefix-m":
 			b = gen.RandBytes(r, 32)
-			k := gen.Int(t, "k", 0, 32)
+			k := gen.Uniform(t, "k", 0, 32)
 			copy(b[:k], gen.Pad32(f.m)[:k])
 		case "len":
 			n := gen.Int(t, "n", 0, 40)
